@@ -68,6 +68,7 @@ func (a Regs) Diff(b Regs, all bool) string {
 		add("PPC", a.PPC, b.PPC)
 		add("PRK", a.PRK, b.PRK)
 		add("WDM", a.WDM, b.WDM)
+		add("Interrupt", a.Interrupt, b.Interrupt)
 	}
 	return strings.Join(d, ", ")
 }
